@@ -300,6 +300,122 @@ def thread_schedules(ctx):
     ctx.cov.update(thread_groups=len(groups), thread_executions=total_exec, thread_scheduling_points=total_points, thread_distinct_outcomes=len(distinct), preemption_bound=2)
 
 
+def dense_pairs():
+    from mc.core import CORPUS
+
+    def load(fn, fmt=None):
+        def call(w):
+            from iodata import load_one
+
+            return c16calls.digest_obj(load_one(str(CORPUS / fn), fmt=fmt))
+
+        return call
+
+    def load_many_(fn):
+        def call(w):
+            from iodata import load_many
+
+            return [c16calls.digest_obj(o) for o in load_many(str(CORPUS / fn))]
+
+        return call
+
+    def dump(name, variant):
+        def call(w):
+            from iodata import dump_one
+            from props import roundtrip
+
+            spec = roundtrip.all_specs()[name]
+            case = {n: m[0] for n, m in spec.space}
+            if "natom" in case:
+                case["natom"] = 3 if variant == 0 else 9
+            if "title" in case:
+                case["title"] = ["T", "water molecule"][variant]
+            obj, dkw, _ = spec.build(case, variant)
+            path = os.path.join(w, f"v{variant}_" + spec.fname)
+            dump_one(obj, path, fmt=spec.fmt, **dkw)
+            with open(path) as fh:
+                return fh.read()
+
+        return call
+
+    pairs = [
+        ("xyz load/load", load("water.xyz"), load("water_element.xyz")), ("pdb load/load", load("water_single.pdb"), load("water_single_model.pdb")),
+        ("sdf load/load", load("example.sdf"), load("formamide.sdf")), ("mol2 load/load", load("water.mol2"), load("silioh3.mol2")),
+        ("gro load/load", load("water.gro"), load("water2.gro")), ("xyz dump/dump", dump("xyz", 0), dump("xyz", 1)), ("pdb dump/dump", dump("pdb", 0), dump("pdb", 1)),
+        ("sdf dump/dump", dump("sdf", 0), dump("sdf", 1)), ("mol2 dump/dump", dump("mol2", 0), dump("mol2", 1)), ("xyz load/dump", load("water.xyz"), dump("xyz", 1)),
+        ("xyz load_many/load_many", load_many_("water_trajectory.xyz"), load_many_("water_trajectory.xyz")),
+    ]
+    heavy = [
+        ("fchk load/load", load("h2o_sto3g.fchk"), load("hf_sto3g.fchk")), ("wfn load/load", load("he_s_orbital.wfn"), load("he_sp_orbital.wfn")),
+        ("cube load/load", load("cubegen_h2o_5points.cube"), load("cubegen_nh3_7points.cube")), ("poscar load/load", load("POSCAR.water"), load("POSCAR.cubicbn_direct")),
+        ("json load/load", load("LiCl_molecule.json", "json_qcschema"), load("Hydroxyl_radical_molecule.json", "json_qcschema")), ("fcidump load/load", load("FCIDUMP.psi4.h2"), load("FCIDUMP.molpro.h2")),
+        ("fchk dump/dump", dump("fchk", 0), dump("fchk", 1)), ("molden dump/dump", dump("molden", 0), dump("molden", 1)), ("wfn dump/dump", dump("wfn", 0), dump("wfn", 1)),
+        ("cube dump/dump", dump("cube", 0), dump("cube", 1)), ("json dump/dump", dump("json_qcschema", 0), dump("json_qcschema", 1)),
+    ]
+    return pairs, heavy
+
+
+def dense_thread_pass(ctx):
+    """Two threads using the SAME format module on distinct data, a scheduling point at EVERY line of iodata code,
+    all schedules with at most one preemption: finds module-level scratch state shared between concurrent calls."""
+    import threading
+
+    import iodata
+
+    root = os.path.dirname(os.path.abspath(iodata.__file__))
+
+    def is_point(frame, event):
+        fn = frame.f_code.co_filename
+        return fn.startswith(root) and "/test/" not in fn
+
+    pairs, heavy = dense_pairs()
+    if ctx.thorough:
+        pairs = pairs + heavy
+    else:
+        pairs = [p for p in pairs if p[0] in ("xyz load/load",)]
+    base_dir = ctx.scratch() / "dense"
+    base_dir.mkdir(exist_ok=True)
+    total = npoints = 0
+    with WarningHook() as hook:
+        for label, call_a, call_b in pairs:
+            works = []
+            for t in range(2):
+                w = base_dir / (label.replace(" ", "_").replace("/", "-")) / f"t{t}"
+                w.mkdir(parents=True, exist_ok=True)
+                works.append(str(w))
+            alone = [run_plain(call_a, works[0], hook), run_plain(call_b, works[1], hook)]
+            hook.repair()
+
+            def make_bodies(call_a=call_a, call_b=call_b, works=works):
+                return [lambda: run_plain(call_a, works[0], hook), lambda: run_plain(call_b, works[1], hook)]
+
+            def check(x, label=label, alone=alone):
+                nonlocal npoints
+                npoints += len(x.points)
+                bad = False
+                for t in (0, 1):
+                    got = x.results.get(t) if t not in x.errors else {"harness_exception": repr(x.errors[t])}
+                    if got != alone[t]:
+                        bad = True
+                        where = [p["where"] for p, c in zip(x.points, x.choices) if p["running_enabled"] and p["enabled"][c] != p["running"]]
+                        site = where[0].split(":", 1)[1].rsplit(":", 1)[0] if where else "?"
+                        ctx.violation("threads", f"thread-result-differs:{label}:preempted-in:{site}", {"pair": label, "preempted_at": where, "thread": t},
+                                      f"{label}: thread {t} returns {json.dumps(got)[:160]} when preempted at {where}, alone it returns {json.dumps(alone[t])[:160]}")
+                if hook.machinery_intact():
+                    hook.repair()  # judged by the first thread pass (known finding); not counted here
+                ctx.outcome("threads-dense", "as-alone" if not bad else "DIFFERS")
+
+            ex = se.Explorer(make_bodies, is_point, bound=1, max_executions=20000 if ctx.thorough else 6000)
+            ex.explore(check)
+            total += ex.executions
+            ctx.count(ex.executions)
+            ctx.nontrivial(("threads-dense", label))
+            if ex.capped:
+                ctx.notes.append(f"dense thread pass {label}: capped at {ex.executions} executions")
+            hook.repair()
+    ctx.cov.update(dense_thread_pairs=len(pairs), dense_thread_executions=total, dense_thread_scheduling_points=npoints, dense_preemption_bound=1)
+
+
 def run(ctx):
     from mc.pool import pmap
 
@@ -316,6 +432,7 @@ def run(ctx):
     ctx.cov.update(pool_calls=n, histories=len(hists), states=states, transitions=sum(len(h[0]) for h in hists),
                    traces_validated_against_impl=len(hists), depth_completed=3 if ctx.thorough else 2)
     thread_schedules(ctx)
+    dense_thread_pass(ctx)
     ctx.evaluations += 0
     ctx.exhaustive = True
     ctx.sample({"history": [pool[46][0] if n > 46 else pool[0][0], pool[-5][0]]})
@@ -324,7 +441,7 @@ def run(ctx):
         "(thorough: all triples of a 10-call sub-pool) executed from the initial interpreter state (forked child per history); each step's result (object/file digest, exception type+message, warnings) must "
         "equal the same call alone in a fresh interpreter, and the snapshot of all module-level tables + warnings machinery must stay the initial one (one state, |pool| self-loops proves order independence). "
         "threads: all schedules with <= 2 preemptions of every pair (thorough: also triples) from a 6-call sub-pool, scheduling points at every line of the public-API wrapper and of "
-        "warnings.catch_warnings.__enter__/__exit__."
+        "warnings.catch_warnings.__enter__/__exit__; second pass: two threads using the same format module on distinct data (1 pair quick, 22 thorough) with a scheduling point at every line of iodata code and all schedules with <= 1 preemption."
     )
     ctx.assumptions += ["thread exploration: scheduling points only where process-global state is touched (API wrapper, catch_warnings); module tables are shown read-only by the sequential part",
                         "results are compared through deep bit-exact snapshots / file digests"]
